@@ -581,7 +581,7 @@ func main() {
 	cfg := drv.Parse()
 	r := drv.NewRand(cfg.Seed)
 	w := emit.NewWriter(cfg.Out, "C16_spec", 0, cfg.Only)
-	n := cfg.Count(420, 9000)
+	n := cfg.Count(600, 9000)
 	extra := map[string]int{"clock_ambiguous": 0}
 	for _, s := range []string{"€", "𝄞"} { // the rune lists are UTF-8 encodings
 		if !utf8.ValidString(s) {
